@@ -581,7 +581,14 @@ static void mon_c04(World& w) {
         const bkr::OutMsg* m = it->second;
         if (r->r_topic != m->topic || !ref::props_equal(r->rprops, m->props)) { w.vio("C04:message-differs:" + sn, "message tag " + std::to_string(m->tag) + " reached async_receive with a different topic or properties"); return; }
         count[m->tag]++;
-        if (m->qos == 2 && count[m->tag] > 1) { w.vio("C04:qos2-duplicate:" + sn, "QoS 2 message tag " + std::to_string(m->tag) + " was handed to the application twice"); return; }
+        if (m->qos == 2 && count[m->tag] > 1) {
+            // history class: the broker retransmitted the PUBLISH (DUP) while the exchange created for its first transmission was still
+            // waiting for the PUBREL; both exchange objects went through PUBREL/PUBCOMP (two PUBCOMP written for the id) and both delivered
+            int pubcomps = 0; for (auto& wl : w.net->wlog) for (auto& pk : packets_in(wl.data)) { auto r2 = ref::decode(pk.second); if (r2.st == ref::D_OK && r2.pkt.type == ref::PUBCOMP && r2.pkt.pid == m->pid) pubcomps++; }
+            bool dup_seen = false; for (auto& e : w.broker->wire) if (!e.c2b && !e.malformed && e.pkt.type == ref::PUBLISH && e.pkt.payload == m->payload && e.pkt.dup()) dup_seen = true;
+            if (dup_seen && pubcomps >= 2 && m->transmissions >= 2) w.vio("C04:qos2-duplicate-two-exchanges-for-one-id", "QoS 2 message tag " + std::to_string(m->tag) + " was handed to the application twice: a DUP retransmission created a second exchange while the first still awaited PUBREL, and both completed (" + sn + ")");
+            else w.vio("C04:qos2-duplicate:" + sn, "QoS 2 message tag " + std::to_string(m->tag) + " was handed to the application twice");
+            return; }
         int idx = order[m]; if (count[m->tag] == 1) { if (idx < last_idx[m->qos]) { w.vio("C04:order:q" + std::to_string(m->qos) + ":" + sn, "QoS " + std::to_string(m->qos) + " message tag " + std::to_string(m->tag) + " was received before an earlier one of the same QoS"); return; } last_idx[m->qos] = idx; } }
     bool receiving = false; for (auto& o : w.ops) if (o.kind == Action::RECV) receiving = true;
     if (!receiving || w.capped) return;
